@@ -1,1 +1,103 @@
-(* Props/C18.v -- stub, to be filled *)
+(* C18 -- the bytes of the protobuf writer decode under the generated .proto.
+   This file only pins statements; proofs live in Proto/SchemaProofs.v. *)
+From A1 Require Import Proto.Wire Proto.Rw Proto.Schema Proto.Proofs Proto.SchemaProofs.
+Local Open Scope N_scope.
+
+(** field / oneof numbering of the emitted schema: position j (from 0) carries number j+1 and the
+    type mapped from the j-th component *)
+Theorem C18_numbers_match :
+  (forall fs m, schema_of (TSeq fs) = Some m ->
+     length m = length fs /\
+     forall j num ty, nth_error m j = Some (num, ty) ->
+       num = N.of_nat j + 1 /\ exists o t, nth_error fs j = Some (o, t) /\ ty = field_type t) /\
+  (forall alts m, schema_of (TChoice alts) = Some m ->
+     exists al, m = [(1, POneofT al)] /\ length al = length alts /\
+     forall j num ty, nth_error al j = Some (num, ty) ->
+       num = N.of_nat j + 1 /\ exists t, nth_error alts j = Some t /\ ty = field_type t).
+Proof. split; [exact numbers_match_seq | exact numbers_match_choice]. Qed.
+
+(** the writer's bytes decode, under the schema and with the reference decoder, to the field values:
+    bounded-exhaustively for every value of a flat SEQUENCE with an OPTIONAL, both profiles *)
+Theorem C18_decodes_under_schema_partial : forall m b x oy,
+  (m = dev_mode \/ m = release_mode) ->
+  x < 256 -> (forall y, oy = Some y -> (-128 <= y < 128)%Z) ->
+  let v := VSeq [VBool b; VInt (Z.of_N x); VOpt (option_map VInt oy)] in
+  exists bs, pwrite_vec m flat_ty v = Ok bs /\
+             pb_decode flat_schema bs = Some (flat_expected b x oy) /\
+             pb_of_val flat_ty v = Some (flat_expected b x oy).
+Proof. exact decodes_flat. Qed.
+
+(** the emitted schema is valid proto3 for the listed representative types *)
+Theorem C18_schema_valid_partial : forall t, In t good_types -> schema_valid t = true.
+Proof. exact schema_valid_good. Qed.
+
+(** ** classes in which the faithful model refutes the property *)
+(* a NULL component is declared `bytes x = n` but write_null neither writes nor advances the counter:
+   every later component is written under the previous number *)
+Definition Known_null_field (t : pty) : Prop :=
+  exists fs, t = TSeq fs /\ exists o, In (o, TNull) fs.
+Definition t_nullseq := TSeq [(false, TInt KU8); (false, TNull); (false, TInt KU8)].
+Theorem C18_refuted_null_field :
+  Known_null_field t_nullseq /\
+  let v := VSeq [VInt 1; VNull; VInt 2] in
+  exists m, schema_of t_nullseq = Some m /\
+    pwrite_vec dev_mode t_nullseq v = Ok [8; 1; 16; 2] /\
+    pb_decode m [8; 1; 16; 2] = Some [BNum 1; BBytes []; BNum 0] /\
+    pb_of_val t_nullseq v = Some [BNum 1; BBytes []; BNum 2].
+Proof.
+  split; [eexists; split; [reflexivity|exists false; right; left; reflexivity]|].
+  eexists. vm_compute. repeat split; reflexivity.
+Qed.
+
+(* a SET with explicit tags is written in canonical tag order but declared in textual order *)
+Definition Known_set_order (d : decl) : Prop :=
+  exists fs, d = DSetTop fs /\ sort_by_tag fs <> fs.
+Theorem C18_refuted_set_order :
+  Known_set_order zoo_set /\
+  let v := VSeq [VInt 7; VStr [120]] in
+  pwrite_vec dev_mode (visit_ty zoo_set) v = Ok [8; 7; 18; 1; 120] /\
+  pb_decode (schema_of_decl zoo_set) [8; 7; 18; 1; 120] = Some [BBytes []; BNum 0] /\
+  (* what the declared message { string b = 1; uint32 a = 2; } should show *)
+  pb_of_val (decl_ty zoo_set) (VSeq [VStr [120]; VInt 7]) = Some [BBytes [120]; BNum 7].
+Proof.
+  split; [eexists; split; [reflexivity|vm_compute; discriminate]|].
+  vm_compute. repeat split; reflexivity.
+Qed.
+
+(* SEQUENCE OF SEQUENCE OF is emitted as `repeated repeated T`, a SEQUENCE OF alternative as a repeated
+   oneof member: not proto3 *)
+Theorem C18_refuted_nested_list_proto :
+  schema_valid (TSeq [(false, TSeqOf (TSeqOf (TInt KU8))); (false, TInt KU8)]) = false.
+Proof. vm_compute. reflexivity. Qed.
+
+Theorem C18_refuted_choice_list_proto :
+  schema_valid (TChoice [TSeqOf (TInt KU8); TInt KU8]) = false.
+Proof. vm_compute. reflexivity. Qed.
+
+(* a selected NULL alternative writes nothing: the oneof is unset for every reader *)
+Theorem C18_refuted_choice_null :
+  let t := TChoice [TNull; TInt KU8] in
+  exists m, schema_of t = Some m /\
+    pwrite_vec dev_mode t (VChoice 0 VNull) = Ok [] /\
+    pb_decode m [] = Some [BOneof None] /\
+    pb_of_val t (VChoice 0 VNull) = Some [BOneof (Some (1, BBytes []))].
+Proof. eexists. vm_compute. repeat split; reflexivity. Qed.
+
+(* non-vacuity *)
+Example C18_nonvacuous :
+  schema_of flat_ty = Some [(1, PScalar SBool); (2, PScalar SUInt32); (3, PScalar SSInt32)] /\
+  In (TSeq [(false, TBits)]) good_types /\
+  pb_decode flat_schema [8; 1; 16; 200; 1; 24; 5] = Some [BNum 1; BNum 200; BNum (-3)] /\
+  (* unknown fields are skipped, last one wins, packed repeated accepted *)
+  pb_decode [(1, PScalar SUInt32); (2, PRepeated (PScalar SSInt32))] [8; 1; 8; 2; 18; 2; 1; 4; 16; 3; 56; 9]
+  = Some [BNum 2; BRep [BNum (-1); BNum 2; BNum (-2)]].
+Proof. vm_compute. repeat split; try reflexivity. do 13 right. left. reflexivity. Qed.
+
+Print Assumptions C18_numbers_match.
+Print Assumptions C18_decodes_under_schema_partial.
+Print Assumptions C18_schema_valid_partial.
+Print Assumptions C18_refuted_null_field.
+Print Assumptions C18_refuted_set_order.
+Print Assumptions C18_refuted_nested_list_proto.
+Print Assumptions C18_refuted_choice_list_proto.
+Print Assumptions C18_refuted_choice_null.
